@@ -11,6 +11,14 @@ mode 'real'    : real nlopt / scipy optimisers, real likelihoods, cheap closed-f
 mode 'perturb' : dadi.Misc.perturb_params with numpy.random.uniform replaced by given draws.
 mode 'project' : dadi.Inference._project_params_down / _project_params_up and their two compositions on given vectors.
 
+A case may carry `clip`: the scripted optimiser then HONOURS the box it is handed -- every proposal is moved onto that box,
+coordinate by coordinate, before the objective is called (Model/Optim.v scripted_clip) -- so that a bound the wrapper did not
+hand over shows as a model evaluation beyond it; and `call`: how the call is SPELLED -- `positional` (names of the optional
+parameters handed over positionally, in the order of the documented signature), `omit` (keywords left out altogether: the
+documented default is in force), `extra` (further keywords: verbose, flush_delay, epsilon, gtol, pgtol, maxiter, func_args,
+func_kwargs, output_file, constraints, nlopt's tolerances ...).  The model function accepts and records whatever extra
+positional / keyword arguments it is called with.
+
 In every mode fixed_params / lower_bound / upper_bound / p0 / the free and full vectors of the projection helpers are handed
 over with the Python types the case names (`*_kinds`, per element: Python int, float, -0.0, bool, numpy.float64 / float32 /
 int64 / int32 / bool_ scalars, a 0-d array; `*_container`: list, tuple, numpy array of a named dtype (`array:int64`, ...),
@@ -19,7 +27,7 @@ type of each of start / stop / step (`grid_kinds`: int, float, complex step): nu
 number of every range is a Python int.  The scripted scipy stubs evaluate the start exactly as it was handed to them (dtype
 included), as scipy.optimize.fmin_powell does.
 """
-import sys, json, warnings, inspect, math
+import sys, os, io, json, warnings, inspect, math, contextlib
 warnings.filterwarnings('ignore')
 import numpy as np
 np.seterr(all='ignore')
@@ -57,7 +65,7 @@ def play(func, x0, maximize):
     or the ret-th point of the trace"""
     x0_as_handed = np.array(x0) if SCRIPT.get('start_as_handed') else np.array(x0, dtype=float)
     x0 = np.array(x0, dtype=float)
-    trace = [x0] + [np.array(p, dtype=float) for p in SCRIPT['props']]
+    trace = [x0] + [clip_to_box(np.array(p, dtype=float)) for p in SCRIPT['props']]
     vals = []
     for k, x in enumerate(trace):
         # (scipy.optimize.fmin_powell evaluates an integer start as the integer array it was handed)
@@ -72,6 +80,20 @@ def play(func, x0, maximize):
             if (vals[k] < vals[i]) if maximize else (vals[i] < vals[k]):
                 k = i
     return trace[k].copy(), vals[k]
+
+def clip_to_box(x):
+    """with SCRIPT['clip']: the proposal moved onto the box the optimiser was handed (finite ends only; an empty bound list is
+    no bounds, nan is no bound) -- Model/Optim.v clip"""
+    if not SCRIPT.get('clip'):
+        return x
+    lo, hi = SCRIPT.get('box') or ([], [])
+    x = x.copy()
+    for i in range(len(x)):
+        if i < len(lo) and math.isfinite(lo[i]) and x[i] < lo[i]:
+            x[i] = lo[i]
+        if i < len(hi) and math.isfinite(hi[i]) and x[i] > hi[i]:
+            x[i] = hi[i]
+    return x
 
 def bounds_pairs(bounds, n):
     lo, hi = [], []
@@ -109,6 +131,7 @@ class StubNlopt:
         REC['hi'] = jl(self.ub) if self.ub is not None else []
         REC['start'] = jl(x0)
         REC['maximize'] = self.maximize
+        SCRIPT['box'] = ([float(v) for v in self.lb] if self.lb is not None else [], [float(v) for v in self.ub] if self.ub is not None else [])
         x, v = play(lambda x: self.f(x, np.array([])), x0, self.maximize)
         self.val = v
         return x
@@ -129,6 +152,7 @@ def _scipy_play(name, A, fkey, bounds=None):
     lo, hi = bounds_pairs(bounds, len(x0))
     REC['lo'] = jl(lo) if lo else []; REC['hi'] = jl(hi) if hi else []
     REC['start'] = jl(x0); REC['maximize'] = False
+    SCRIPT['box'] = (lo, hi)
     SCRIPT['start_as_handed'] = True
     try:
         return play(lambda x: func(x, *args), np.atleast_1d(np.asarray(A['x0'])), False)
@@ -274,6 +298,36 @@ def typed_args(c):
 def plain(seq):
     return None if seq is None else [None if v is None else float(v) for v in seq]
 
+def decode_extra(name, v, c):
+    if name == 'output_file' and v is True:
+        import tempfile
+        fd, path = tempfile.mkstemp(prefix='c12_out_', suffix='.txt')
+        os.close(fd)
+        c.setdefault('_files', []).append(path)
+        return path
+    if name in ('algorithm', 'local_optimizer') and isinstance(v, str):
+        return getattr(nlopt, v)
+    if name in ('eq_constraint', 'ieq_constraint') and isinstance(v, dict):
+        # a constraint that every point satisfies: g(x) = 1 + sum x_i^2 >= 0 (never binding, never an equality)
+        return lambda x, *a: np.array([1.0 + float(np.sum(np.asarray(x, dtype=float) ** 2))])
+    if name == 'maxtime' and v == 'inf':
+        return float('inf')
+    return v
+
+def spelled_call(f, required, kw, c):
+    """the call as the case spells it: extra keywords added, omitted keywords left to their defaults, the named optional
+    parameters handed over positionally"""
+    call = c.get('call') or {}
+    kw = dict(kw)
+    for name, v in sorted((call.get('extra') or {}).items()):
+        kw[name] = decode_extra(name, v, c)
+    for name in call.get('omit') or []:
+        kw.pop(name, None)
+    pos = [kw.pop(name) for name in (call.get('positional') or [])]
+    c['_func_kwargs_handed'] = kw.get('func_kwargs')
+    c['_func_kwargs_before'] = None if kw.get('func_kwargs') is None else dict(kw['func_kwargs'])
+    return f(*(list(required) + pos), **kw)
+
 def call_wrapper(c, data, model, full_output=True):
     fn = c['fn']
     kw = dict(multinom=c['multinom'], fixed_params=c['fixed'])
@@ -284,22 +338,50 @@ def call_wrapper(c, data, model, full_output=True):
         for key in ('maxeval', 'ftol_abs', 'xtol_abs'):
             if c.get(key) is not None:
                 kw[key] = c[key]
-        x, f = NL.opt(c['p0'], data, model, None, **kw)
+        x, f = spelled_call(NL.opt, [c['p0'], data, model, None], kw, c)
         return x, f
     if fn == 'optimize_grid':
-        out = Inf.optimize_grid(data, model, None, grid_slices(c['grid'], c.get('grid_kinds')), full_output=full_output, **kw)
+        kw['full_output'] = full_output
+        out = spelled_call(Inf.optimize_grid, [data, model, None, grid_slices(c['grid'], c.get('grid_kinds'))], kw, c)
         return (out[0], out[1]) if full_output else (out, None)
     kw.update(lower_bound=c['lower'], upper_bound=c['upper'], full_output=full_output)
     if fn not in ('optimize_log_fmin', 'optimize_log_powell') and c.get('ll_scale') is not None:
         kw['ll_scale'] = c['ll_scale']
     if c.get('maxiter') is not None:
         kw['maxiter'] = c['maxiter']
-    out = getattr(Inf, fn)(c['p0'], data, model, None, **kw)
+    out = spelled_call(getattr(Inf, fn), [c['p0'], data, model, None], kw, c)
     return (out[0], out[1]) if full_output else (out, None)
 
 def copy_in(c):
     """fresh copies of the caller-visible sequences (with the requested Python types), to see whether the wrapper modifies them"""
     return typed_args(c)
+
+def captured_call(cc, data, model, full_output, rec):
+    """the call with sys.stdout captured (verbose output goes to the stream the wrapper looks up at call time); what was written,
+    whether the caller's func_kwargs dictionary came back as it went in, and the lines of a requested output_file"""
+    buf = io.StringIO()
+    try:
+        with contextlib.redirect_stdout(buf):
+            return call_wrapper(cc, data, model, full_output=full_output)
+    finally:
+        rec['stdout_lines'] = len(buf.getvalue().splitlines())
+        if cc.get('_func_kwargs_handed') is not None:
+            rec['func_kwargs_after'] = sorted(cc['_func_kwargs_handed'].items())
+            rec['func_kwargs_before'] = sorted(cc['_func_kwargs_before'].items())
+        for path in cc.get('_files') or []:
+            try:
+                rec['output_file_lines'] = len(open(path).read().splitlines())
+                os.remove(path)
+            except OSError as e:
+                rec['output_file_lines'] = 'unreadable: %s' % e
+
+def model_args_record(rec, margs):
+    """the extra positional / keyword arguments the model function was called with: the distinct combinations seen"""
+    seen = []
+    for m in margs:
+        if m not in seen:
+            seen.append(m)
+    rec['model_args'] = seen[:4]
 
 def run_scripted(cases):
     out = []
@@ -308,21 +390,22 @@ def run_scripted(cases):
     for c in cases:
         rec = {'id': c['id']}
         evals = []
-        def model(params, ns, pts=None, _e=evals):
+        margs = []
+        def model(params, ns, *a, _e=evals, _m=margs, **k):
             _e.append(jl(params))
+            _m.append([list(a), sorted(k.items())])
             return FakeSfs(params)
         Inf.ll = lambda sfs, d, _c=c: quad(_c['llp'], sfs.params)
         Inf.ll_multinom = lambda sfs, d, _c=c: quad(_c['llm'], sfs.params)
         Inf.optimal_sfs_scaling = lambda sfs, d: 1.0
         SCRIPT['props'] = c.get('props') or []; SCRIPT['ret'] = c.get('ret'); SCRIPT['lenient'] = bool(c.get('lenient'))
+        SCRIPT['clip'] = bool(c.get('clip')); SCRIPT['box'] = None
         REC.clear()
         install_stubs()
         try:
             cc = dict(c); cc.update(copy_in(c))
-            x, f = call_wrapper(cc, data, model, full_output=c.get('full_output', True))
+            x, f = captured_call(cc, data, model, c.get('full_output', True), rec)
             rec['x'] = jl(x); rec['f'] = None if f is None else jf(f)
-            if c['fn'] == 'optimize_grid':
-                pass
         except Exception as e:
             rec['error'] = type(e).__name__ + ': ' + str(e)[:300]
         finally:
@@ -330,6 +413,7 @@ def run_scripted(cases):
             Inf.ll, Inf.ll_multinom, Inf.optimal_sfs_scaling = real_ll, real_llm, real_scal
         rec['evals'] = list(evals)
         rec['oracle'] = dict(REC)
+        model_args_record(rec, margs)
         out.append(rec)
     return out
 
@@ -344,8 +428,17 @@ def make_model(spec):
     cs = spec['cs']
     def sfs_of(p):
         a = base.copy()
-        for k in range(len(cs)):
-            a = a + quadc[k] * (p[k] - cs[k]) ** 2 + lin[k] * p[k]
+        try:
+            for k in range(len(cs)):
+                a = a + quadc[k] * (p[k] - cs[k]) ** 2 + lin[k] * p[k]
+        except OverflowError:
+            # an optimiser without bounds (in log(params) in particular) may try astronomically large parameters: the
+            # model stays defined there (differences saturate at 1e100: a finite, hopeless spectrum) instead of raising out
+            # of the harness's own arithmetic
+            a = base.copy()
+            for k in range(len(cs)):
+                d = min(abs(float(p[k]) - cs[k]), 1e100)
+                a = a + quadc[k] * d * d + lin[k] * max(-1e100, min(1e100, float(p[k])))
         return dadi.Spectrum(a)
     return sfs_of
 
@@ -356,8 +449,10 @@ def run_real(cases):
         sfs_of = make_model(c['model'])
         data = dadi.Spectrum(np.array(c['model']['data'], dtype=float))
         evals = []
-        def model(params, ns, pts=None, _e=evals):
+        margs = []
+        def model(params, ns, *a, _e=evals, _m=margs, **k):
             _e.append(jl(params))
+            _m.append([list(a), sorted(k.items())])
             return sfs_of([float(x) for x in params])
         def lik(p):
             m = sfs_of([float(x) for x in p])
@@ -372,7 +467,7 @@ def run_real(cases):
             if c.get('seed') is not None:
                 nlopt.srand(int(c['seed'])); np.random.seed(int(c['seed']))
             cc = dict(c); cc.update(copy_in(c))
-            x, f = call_wrapper(cc, data, model, full_output=c.get('full_output', True))
+            x, f = captured_call(cc, data, model, c.get('full_output', True), rec)
             rec['x'] = jl(x); rec['f'] = None if f is None else jf(f)
             rec['ll_at_x'] = jf(lik(np.atleast_1d(x)))
             for k in ('p0', 'lower', 'upper', 'fixed'):
@@ -387,6 +482,7 @@ def run_real(cases):
             rec['p0_subst'] = p0s
             rec['ll_at_p0'] = jf(lik(p0s))
         rec['evals'] = list(evals)
+        model_args_record(rec, margs)
         out.append(rec)
     return out
 
